@@ -157,6 +157,8 @@ class World:
         session.write_config(self.cfg, {"n_threads": 1 + seed % 3, "cache_size": 1 + seed % 4})
         self.w = w
         kind = w["kind"]
+        if w.get("shank_of") is not None and len(w["shank_of"]) != w["nap"]:
+            raise RuntimeError("inconsistent world: shank_of does not match nap (harness bug)")
         fixture = {"NP24": "NP24", "NP24_1sh": "NP24", "split": "NP24", "NP21": "NP21", "NP1": "NP1"}[kind]
         self.fixture = fixture
         self.fs = world.meta_fs(fixture)
@@ -591,9 +593,14 @@ def shrink_candidates(plan):
                 yield c
     w = plan["world"]
     for key, val in (("ns", 1000), ("nap", 4), ("form", "bin")):
-        if w[key] != val and not (key == "nap" and w["kind"] in ("NP24", "split")):
+        if w[key] != val:
             c = dict(plan)
             c["world"] = dict(w)
             c["world"][key] = val
+            if key == "nap" and w.get("shank_of") is not None:
+                so = list(w["shank_of"])[:val]
+                if len(set(so)) != len(set(w["shank_of"])):
+                    continue        # the smaller world would lose a shank: not the same kind of world
+                c["world"]["shank_of"] = so
             c["steps"] = [dict(s, fault=({"auto": True, "rseed": 7} if s.get("fault") else None)) for s in steps]
             yield c
